@@ -236,9 +236,52 @@ def pts_antimeridian():
     return st.builds(mk, st.floats(0, 13, allow_nan=False), st.sampled_from([-1.0, 1.0]), _unit, st.booleans())
 
 
+def _adjacent_vertex_pairs():
+    vs = refgeo.FACE_VERTICES
+    out = []
+    for i in range(len(vs)):
+        for j in range(i + 1, len(vs)):
+            d = refgeo._dot(vs[i], vs[j])
+            if d > 0.74:          # adjacent dodecahedron vertices are 41.8 degrees apart (cos = 0.745)
+                out.append((vs[i], vs[j]))
+    assert len(out) == 30, len(out)
+    return out
+
+
+_EDGES = _adjacent_vertex_pairs()
+
+
+def pts_face_edge():
+    """Points along a dodecahedron edge, displaced sideways by 1e-13..1e-2 rad (either side)."""
+    def mk(e, t, u, side):
+        a, b = _EDGES[e]
+        base = refgeo.slerp_vec(a, b, t)
+        n = refgeo._norm(refgeo._cross(a, b))
+        d = 10.0 ** (-13 + 11 * u) * (1 if side else -1)
+        v = refgeo._norm(tuple(base[i] + d * n[i] for i in range(3)))
+        lon, lat = refgeo.frame_to_lonlat(v)
+        return _pt(lon, lat, "face_edge")
+    return st.builds(mk, st.integers(0, 29), _unit, _unit, st.booleans())
+
+
+def pts_seam():
+    """Points along a triangle seam (face centre -> vertex or edge midpoint), displaced sideways."""
+    def mk(f, j, kind, t, u, side):
+        c = refgeo.FACE_CENTRES[f]
+        pool = refgeo.FACE_VERTICES if kind else refgeo.EDGE_MIDPOINTS
+        w = sorted(pool, key=lambda x: -refgeo._dot(x, c))[j % 5]
+        base = refgeo.slerp_vec(c, w, t)
+        n = refgeo._norm(refgeo._cross(c, w))
+        d = 10.0 ** (-13 + 11 * u) * (1 if side else -1)
+        v = refgeo._norm(tuple(base[i] + d * n[i] for i in range(3)))
+        lon, lat = refgeo.frame_to_lonlat(v)
+        return _pt(lon, lat, "seam")
+    return st.builds(mk, st.integers(0, 11), st.integers(0, 4), st.booleans(), _unit, _unit, st.booleans())
+
+
 def pts_base():
     return st.one_of(pts_uniform(), pts_polar(), pts_frame_nbhd(), pts_frame_nbhd(), pts_antimeridian(),
-                     pts_frame_exact(), pts_pole_exact())
+                     pts_frame_exact(), pts_pole_exact(), pts_face_edge(), pts_face_edge(), pts_seam())
 
 
 def pts_wrapped():
